@@ -34,6 +34,9 @@ CHECKS = {
          "ref_do / ref_gls (all repository KATs)", "differential testing against reference signer/verifier/ECDH", "4 C09"),
  "C13": ("exploration", "Truncated signatures: completeness (exact reconstruction for rm 8..32 and all fills of the ignored bits, with ground extreme hidden parts for rm <= 13), soundness (anything returned verifies under the reference verifier and is a completion of the supplied prefix; corrupted prefixes, the other ECDSA root, true s just below n), prepare_truncate on boundary/short forms, and complete recomputation of the 16385-entry UX_COMP table via the hook.",
          "reference verifiers; rm outside 8..32 not generated; hidden part 2^(rm-4) of an Ed25519 S (needs S >= 2^252, probability 2^-125) not reachable", "completeness/soundness monitor against reference verifiers; exhaustive table check", "4 C13"),
+
+ "C15": ("exploration", "Full FROST protocol runs for the five ciphersuites (all signer subsets for small n, random (t,n) up to (6,9), shuffled arrival, duplicates, splits up to n = 65535) with every wire object passed through the library's codecs; every intermediate value compared with an independent RFC 9591 reference computed from the same RNG tapes; interpolation of any t shares; aggregates verified by the library and by the RFC 8032 reference verifier; one-field corruptions judged by the reference.",
+         "ref_frost (RFC 9591 vectors, repository KATs); documented-domain limits", "protocol-history monitor against an executable reference model with tape-replayed randomness", "4 C15"),
  "C16": ("exploration", "Whole-life history of LMS keys for the four parameter sets: every sign call's output must equal the reference signature for the next expected leaf (indices strictly increasing, once each), a crash injected inside ots_sign (RNG that panics) must burn the reserved index, exhausted keys return None forever and stay usable for verification; alterations of every signature field judged by the reference verifier.",
          "reference LMS (RFC 8554 vector), hashlib", "history monitor with fault injection (panicking RNG) against an executable model", "4 C16"),
  "C18": ("exploration", "One seeded stream made of slices of all other workloads executed by the six native builds; per-request comparison against the default build and against the reference oracles; documented degrees of freedom compared through their contract.",
